@@ -148,7 +148,28 @@ def _raising_call(rng):
             'inp': {'t': 'failstream', 'v': text}, 'opts': None, 'enc': None}
 
 
+class _Palette:
+    """A history draws its texts and option sets from a small per-run
+    palette: repeated identical calls around perturbing ops are what expose
+    caching / leaked state, and it keeps the number of distinct reference
+    computations per run small."""
+
+    def __init__(self, rng):
+        self.texts = [_medium(rng) for _ in range(rng.choice([2, 3, 4]))]
+        self.opts = [corpus.draw_opts(rng) for _ in range(rng.choice([2, 3]))]
+
+    def text(self, rng):
+        return self.texts[rng.randrange(len(self.texts))]
+
+    def call(self, rng):
+        c = _checked_call(rng, self.text)
+        if c['api'] == 'format':
+            c['opts'] = dict(self.opts[rng.randrange(len(self.opts))])
+        return c
+
+
 def gen_history(rng, ctx):
+    pal = _Palette(rng)
     n = rng.randint(3, 25)
     ops_ = []
     open_handles = []
@@ -163,13 +184,13 @@ def gen_history(rng, ctx):
                                               or swarm['headroom']):
             r = 0.58 if swarm['interrupt'] and rng.random() < 0.6 else 0.97
         if r < 0.45:
-            ops_.append(_checked_call(rng, _medium))
+            ops_.append(pal.call(rng))
         elif r < 0.55:
             if swarm['raise']:
                 ops_.append(_raising_call(rng))
         elif r < 0.66:
             if swarm['interrupt']:
-                op = _checked_call(rng, _medium)
+                op = pal.call(rng)
                 key = ops.ref_key(op['api'], op['inp'], op['opts'],
                                   op['enc'])
                 total = max(2, ctx.ref(key, steps=True).get('steps', 50))
@@ -225,7 +246,7 @@ def gen_history(rng, ctx):
                 else:
                     ops_.append({'op': 'lex_add_kw'})
             for _ in range(rng.randint(0, 2)):
-                ops_.append(_checked_call(rng, _medium))
+                ops_.append(pal.call(rng))
             if open_handles and rng.random() < 0.4:
                 ops_.append({'op': 'gen_next', 'h': rng.choice(open_handles),
                              'n': 1})
@@ -262,11 +283,11 @@ def gen_history(rng, ctx):
         if rng.random() < 0.7:
             ops_.append({'op': 'gen_finish', 'h': h})
     for _ in range(rng.randint(1, 3)):
-        ops_.append(_checked_call(rng, _medium))
+        ops_.append(pal.call(rng))
     return {'ops': ops_, 'timeout': 90.0}
 
 
-POLICY_P = [0.001, 0.01, 0.05, 0.3]
+POLICY_P = [0.001, 0.003, 0.01, 0.01, 0.03, 0.05, 0.1, 0.3]
 
 
 def gen_threads(rng, ctx, pop, idx):
@@ -575,7 +596,7 @@ def run_threads(spec, refs):
         'timeout', 90.0) - 10)
     viols = []
     if fatal:
-        if fatal['kind'] == 'walltimeout':
+        if fatal['kind'] in ('walltimeout', 'harness'):
             return {'status': 'harness', 'msg': fatal['msg']}
         viols.append({'cls': 'threads:' + fatal['kind'],
                       'msg': fatal['msg'], 'step': fatal['step']})
@@ -765,7 +786,7 @@ RULE = (
     "file:line, next thread) at every context switch). distinct_nontrivial "
     "counts signatures of non-trivial runs only.")
 
-TIERS = {'quick': 16000, 'thorough': 400000}
+TIERS = {'quick': 12000, 'thorough': 600000}
 WALL_CAP = {'quick': 240, 'thorough': 3300}
 DET_SAMPLE = {'quick': 24, 'thorough': 120}
 LEVEL = 'exploration'
